@@ -468,8 +468,17 @@ fn gen_field_instrs(t: &mut Tape, o: &GenOpts, cps: &[Cp], idx: usize, s_named: 
                 attrs.push(Instr::Parent { ded, fields: None });
             } else {
                 let need_types = applicable(cps, &ded).iter().any(|c| c.has_from());
-                lab.add("parent:params");
-                attrs.push(Instr::Parent { ded, fields: Some(gen_parent_fields(t, 0, need_types, lab)) });
+                if ded.is_some() && !need_types && cps.iter().any(|c| c.has_from()) && t.coin() {
+                    // dedicated to a counterpart that is only converted *into*: the member need not be a struct with a name,
+                    // a tuple will do (its type name is only needed where a From conversion has to build it)
+                    lab.add("parent:params-on-tuple-typed-member");
+                    ty = "(i32, i64)".into();
+                    let fields = (0..2).map(|i| ParentField { attrs: vec![("map".to_string(), format!("tm{}", i))], nested: None, member: format!("{}", i), ty: None }).collect();
+                    attrs.push(Instr::Parent { ded, fields: Some(fields) });
+                } else {
+                    lab.add("parent:params");
+                    attrs.push(Instr::Parent { ded, fields: Some(gen_parent_fields(t, 0, need_types, lab)) });
+                }
             }
         }
         _ => {
